@@ -14,7 +14,7 @@ import jax
 import jax.numpy as jnp
 
 from .. import dsh
-from ..symjax import Interp, Ctx, toobj
+from ..symjax import Interp, Ctx, toobj, sym_like
 from ..symjax import real as R
 from ..symjax.spmd import eval_spmd
 from ..solve import Prover, zl, differing
@@ -44,7 +44,12 @@ def tasks(tier):
     out.append(dict(mode='quantized', N=3, D=2))
     out.append(dict(mode='quantized', N=5, D=3))
     out.append(dict(mode='compressed', N=3, D=2))
+    for N, D in ((1, 2), (3, 2), (5, 3), (2, 3)):
+      out.append(dict(mode='sharded', N=N, D=D))
   else:
+    for N in (1, 2, 3, 4, 5, 7):
+      for D in (2, 3, 4, 5):
+        out.append(dict(mode='sharded', N=N, D=D))
     for N in TREES:
       for D in (2, 3, 4, 5):
         out.append(dict(mode='full', N=N, D=D))
@@ -86,7 +91,118 @@ def evaluate(c, shapes, D, leaves=None):
   return tr, leaves, outs, interps
 
 
+def sharded_work(t):
+  """declared num_devices_for_pjit = D versus 1 (one-device mesh; the declared count only drives padding)"""
+  t0_ = time.time()
+  dsh.install_root_stub()
+  c = dict(c02.BASE, graft='RMSPROP', q=2, s=1, start=1, block_size=4)
+  shapes = TREES[t['N']]
+  D = t['D']
+  tag = f"sharded|N={t['N']}|D={D}"
+  params = dsh.zeros_tree(shapes)
+  P = Prover(timeout_s=30, first_s=1.0)
+  try:
+    tr1, st1, _, _ = dsh.trace_sharded(c, params, 1)
+    trD, stD, _, _ = dsh.trace_sharded(c, params, D)
+  except dsh.RealCodeError as ex:
+    cf = confirm(t)
+    if cf is None:
+      return dict(results=[], violations=[], errors=[f'{tag}: real code raised while tracing: {ex}'], configs=1)
+    return dict(results=[dict(name=f'{tag}|real code raises for declared D', status='violation', kind='core', queries=0)],
+                violations=[dict(key='C13:sharded:crash', what=cf['what'], replay=cf['replay'])], errors=[], configs=1)
+  N = t['N']
+  pool = {}
+  L1 = tr1.sym_inputs(pool=pool)
+  LD = []
+  for nm, x in zip(trD.names, trD.flat):
+    x = np.asarray(x)
+    key = (nm, tuple(x.shape), str(x.dtype))
+    if key in pool:
+      LD.append(pool[key])
+      continue
+    v = sym_like('D_' + ''.join(ch if ch.isalnum() else '_' for ch in nm), x)
+    if 'global_stats' in nm:
+      # the first N slots are the real statistics: shared; the padding slots are independent
+      one = [l for n2, l in zip(tr1.names, L1) if n2 == nm][0]
+      m = min(one.shape[0], v.shape[0], N)
+      v[:m] = one[:m]
+    LD.append(v)
+  for k, nm in enumerate(tr1.names):
+    if nm.endswith('.exponents'):
+      L1[k] = np.asarray(tr1.flat[k])
+  for k, nm in enumerate(trD.names):
+    if nm.endswith('.exponents'):
+      LD[k] = np.asarray(trD.flat[k])
+  g_, st_, p_ = tr1.unflatten_in(L1)
+  count = st_.count.item()
+  rng = [count >= 0, count <= 2 ** 31 - 2]
+  u1, n1 = tr1.run(Interp(Ctx()), L1)
+  uD, nD = trD.run(Interp(Ctx()), LD)
+  flat = lambda tree: np.concatenate([toobj(x).reshape(-1) for x in jax.tree_util.tree_leaves(tree, is_leaf=lambda y: isinstance(y, np.ndarray))])
+  P.equal(f'{tag}|updates equal the D=1 run', flat(uD), flat(u1), rng)
+  P.equal(f'{tag}|local statistics (momenta, grafting accumulators, metrics) equal the D=1 run', flat(nD.stats.local_stats), flat(n1.stats.local_stats), rng)
+  P.equal(f'{tag}|global statistics of the {N} real slots equal the D=1 run', nD.stats.global_stats.statistics[:N].reshape(-1),
+          n1.stats.global_stats.statistics[:N].reshape(-1), rng)
+  P.equal(f'{tag}|global preconditioners of the {N} real slots equal the D=1 run', nD.stats.global_stats.preconditioners[:N].reshape(-1),
+          n1.stats.global_stats.preconditioners[:N].reshape(-1), rng)
+  P.equal(f'{tag}|count', nD.count, n1.count, rng)
+  ok = nD.stats.global_stats.statistics.shape[0] % D == 0
+  P.results.append(dict(name=f'{tag}|number of global slots is a multiple of D', kind='core', queries=0, status='unsat' if ok else 'sat'))
+  P.reach(f'{tag}|twin: assumptions satisfiable', rng, [zl(L1[0].reshape(-1)[0]) != 0])
+  res, viol = [], []
+  confirmed = None
+  for r in P.results:
+    r = dict(r)
+    if r['status'] == 'sat' and r.get('kind', 'core') == 'core':
+      if confirmed is None:
+        confirmed = confirm(t) or False
+      if confirmed:
+        r['status'] = 'violation'
+        viol.append(dict(key='C13:sharded', what=confirmed['what'], replay=confirmed['replay']))
+      else:
+        r['status'] = 'spurious'
+        r['note'] = 'candidate counterexample did not reproduce on the real code'
+    res.append(r)
+  return dict(results=res, violations=viol, errors=[], configs=1,
+              samples=[dict(task=t, shapes=[list(s) for s in shapes], jaxpr_eqns_D1=tr1.n_eqns, jaxpr_eqns_D=trD.n_eqns)],
+              extra=dict(jaxpr_eqns_total=tr1.n_eqns + trD.n_eqns, eval_s=round(time.time() - t0_, 2)))
+
+
+def sharded_concrete(t):
+  """real sharded optimizer under a one-device mesh: declared D devices versus 1"""
+  c = dict(c02.BASE, graft='RMSPROP', q=2, s=1, start=1, block_size=4)
+  shapes = TREES[t['N']]
+  rng = np.random.RandomState(0)
+  params = {f'p{i}': jnp.asarray(rng.randn(*sh), jnp.float32) for i, sh in enumerate(shapes)}
+  dsh.uninstall_root_stub()
+  try:
+    runs = []
+    for D in (1, t['D']):
+      try:
+        tr, state, opt, mesh = dsh.trace_sharded(c, params, D)
+      except Exception as ex:
+        return f'sharded update with num_devices_for_pjit={D} raises {type(ex).__name__}: {str(ex)[:200]}'
+      r = np.random.RandomState(1)
+      outs = []
+      with mesh:
+        upd = jax.jit(opt.update)
+        for step in range(4):
+          g = {k: jnp.asarray(r.randn(*v.shape), jnp.float32) for k, v in params.items()}
+          u, state = upd(g, state, params)
+          outs.append(jax.tree_util.tree_map(np.asarray, u))
+      runs.append(outs)
+    for step, (a, b) in enumerate(zip(*runs)):
+      for k in a:
+        if not np.allclose(a[k], b[k], rtol=1e-3, atol=1e-5):
+          return f'step {step}: update of {k} with {t["D"]} declared devices {b[k].reshape(-1)[:4]} differs from 1 device {a[k].reshape(-1)[:4]}'
+    return None
+  finally:
+    dsh.install_root_stub()
+
+
 def work(t):
+  if t['mode'] == 'sharded':
+    return sharded_work(t)
   t0_ = time.time()
   dsh.install_root_stub()
   if t['mode'] == 'compressed':
@@ -188,6 +304,8 @@ print(json.dumps(msg))
 
 def concrete(t):
   """real jax.pmap over forced host devices: D devices versus one device"""
+  if t['mode'] == 'sharded':
+    return sharded_concrete(t)
   import subprocess, sys, os
   env = dict(os.environ)
   env.pop('XLA_FLAGS', None)
@@ -233,5 +351,5 @@ def run(rep):
   rep.stubs = ['matrix_inverse_pth_root / _low_rank_root -> uninterpreted functions of the unpadded block and exponent']
   rep.assumptions = ['exact real arithmetic (int16 quantisation uses exact round-half-even)', 'inputs replicated across devices',
                      'root routine padding invariant']
-  rep.outside = ['real multi-device execution / XLA collectives (used only in replays)', 'sharded (pjit) variant', 'D > 5']
+  rep.outside = ['real multi-device execution / XLA collectives (used only in replays)', 'sharded variant on a real multi-device mesh (a one-device mesh is used; the declared device count drives the padding)', 'D > 5']
   run_tasks('vp.props.c13', 'work', ts, report=rep)
